@@ -68,6 +68,35 @@ func RandF32(r *rng.R, shape []int, lo, hi float64) *val.V {
 	// other half values with a full random mantissa, so that a changed order of floating-point additions
 	// (blocked, parallel or re-associated kernels) changes result bits
 	tame := r.Bool()
+	switch r.Intn(24) {
+	case 0: // all zero
+		for i := range v.Bits {
+			v.Bits[i] = 0
+		}
+		return v
+	case 1: // all equal
+		x := uint64(math.Float32bits(float32(lo + (hi-lo)*r.Float())))
+		for i := range v.Bits {
+			v.Bits[i] = x
+		}
+		return v
+	case 2: // special values sprinkled in: -0, denormal, huge, tiny, +-Inf, NaN
+		sp := []uint32{0x80000000, 0x00000001, 0x7f7fffff, 0xff7fffff, 0x00800000, 0x7f800000, 0xff800000, 0x7fc00000, 0x3f800000, 0xbf800000}
+		for i := range v.Bits {
+			if r.Chance(1, 3) {
+				v.Bits[i] = uint64(sp[r.Intn(len(sp))])
+			} else {
+				v.Bits[i] = uint64(math.Float32bits(float32(lo + (hi-lo)*r.Float())))
+			}
+		}
+		return v
+	case 3: // other orders of magnitude
+		scale := []float64{1e-30, 1e-12, 1e6, 1e18, 1e30}[r.Intn(5)]
+		for i := range v.Bits {
+			v.Bits[i] = uint64(math.Float32bits(float32((lo + (hi-lo)*r.Float()) * scale)))
+		}
+		return v
+	}
 	for i := range v.Bits {
 		if tame {
 			steps := int((hi - lo) * 8)
@@ -398,10 +427,10 @@ func Templates() []Template {
 			attrs = append(attrs, mb.AI("transB", 1))
 		}
 		if rw.Bool() {
-			attrs = append(attrs, mb.AF("alpha", float32(rw.Range(1, 6))/4))
+			attrs = append(attrs, mb.AF("alpha", pick(rw, float32(0), 1, -1, 0.25, 1.5, 2)))
 		}
 		if rw.Bool() {
-			attrs = append(attrs, mb.AF("beta", float32(rw.Range(1, 6))/2))
+			attrs = append(attrs, mb.AF("beta", pick(rw, float32(0), 1, -1, 0.5, 2, 3)))
 		}
 		ops := []Operand{data(RandOf(rd, dt, ashape), aaxis), weight(RandOf(rw, dt, bshape))}
 		if rw.Chance(3, 4) {
@@ -490,6 +519,20 @@ func Templates() []Template {
 		case 2:
 			return OpCase{Op: "Slice", Operands: []Operand{x, mk(1), mk(4), mk(-2)}, Outs: []string{"y"}}
 		}
+		if rw.Bool() {
+			// "to the end" written the way exporters do (INT_MAX / INT64_MAX), a negative step, an end before the start
+			big := math.MaxInt32
+			if idt == val.Int64 && rw.Bool() {
+				big = math.MaxInt64
+			}
+			switch rw.Intn(3) {
+			case 0:
+				return OpCase{Op: "Slice", Operands: []Operand{x, mk(1), mk(big), mk(1)}, Outs: []string{"y"}}
+			case 1:
+				return OpCase{Op: "Slice", Operands: []Operand{x, mk(3), mk(-5), mk(1), mk(-1)}, Outs: []string{"y"}}
+			}
+			return OpCase{Op: "Slice", Operands: []Operand{x, mk(-3, 0), mk(big, big), mk(1, 2), mk(2, 1)}, Outs: []string{"y"}}
+		}
 		return OpCase{Op: "Slice", Operands: []Operand{x, mk(0, 0, 1), mk(1, 2, 3)}, Outs: []string{"y"}}
 	}})
 	ts = append(ts, Template{Name: "Squeeze", Sensitive: true, Gen: func(rw, rd *rng.R, b int) OpCase {
@@ -511,7 +554,7 @@ func Templates() []Template {
 	}})
 	ts = append(ts, Template{Name: "Transpose", Gen: func(rw, rd *rng.R, b int) OpCase {
 		dt := anyDT(rw)
-		perm := pick(rw, []int64{0, 2, 1}, []int64{2, 1, 0}, []int64{1, 0, 2})
+		perm := pick(rw, []int64{0, 2, 1}, []int64{2, 1, 0}, []int64{1, 0, 2}, []int64{0, 1, 2}, []int64{1, 2, 0})
 		return OpCase{Op: "Transpose", Attrs: []mb.Attr{mb.AInts("perm", perm...)}, Operands: []Operand{data(RandOf(rd, dt, []int{b, 2, 3}), 0)}, Outs: []string{"y"}}
 	}})
 	ts = append(ts, Template{Name: "Transpose/weight", Sensitive: true, Gen: func(rw, rd *rng.R, b int) OpCase {
